@@ -382,7 +382,34 @@ impl<CharIter: Iterator<Item = char>> Lexer<CharIter> {
                                             '"' => string_literal.push('"'),
                                             '\\' => string_literal.push('\\'),
                                             '|' => string_literal.push('|'),
-                                            'x' => (), // TODO: 'x' for hex value
+                                            'x' => {
+                                                // \x<hex scalar value>;
+                                                let mut hex = String::new();
+                                                loop {
+                                                    match self.advance(1) {
+                                                        Some(';') => break,
+                                                        Some(h) => hex.push(*h),
+                                                        None => {
+                                                            return located_error!(
+                                                                SyntaxError::UnexpectedEnd,
+                                                                Some(self.location)
+                                                            )
+                                                        }
+                                                    }
+                                                }
+                                                match u32::from_str_radix(&hex, 16)
+                                                    .ok()
+                                                    .and_then(std::char::from_u32)
+                                                {
+                                                    Some(c) => string_literal.push(c),
+                                                    None => {
+                                                        return located_error!(
+                                                            SyntaxError::UnknownEscape('x'),
+                                                            Some(self.location)
+                                                        )
+                                                    }
+                                                }
+                                            }
                                             ' ' => (), // TODO: space for nothing
                                             other => {
                                                 return located_error!(
